@@ -54,6 +54,7 @@ func main() {
 		{"QuadTreeGen.v", genQuadTree},
 		{"GpkgWriterGen.v", genGpkgWriter},
 		{"TmsAddrGen.v", genTmsAddr},
+		{"PipeGen.v", genPipe},
 	}
 	failed := false
 	for _, g := range gens {
